@@ -584,6 +584,27 @@ def run_twice(prog, cls, flag, preset=(), feedback=False):
     return ip, {'res': res, 'obj': o, 'res1': res1, 't1': t1, 'garr': garr, 'feedback': feedback}
 
 
+def run_copy(prog, cls, flag, preset=()):
+    """the closure in use is a deep copy of the caller's object (PairTable.__setitem__, PRISM.__init__); the caller then
+    re-uses its own object with another contact distance and potential.  deepcopy does not copy function objects, so a
+    routine bound at construction that reads `self` keeps reading the original."""
+    ip = Interp(prog)
+    ip.preset = list(preset)
+    for s_, k in (('u', 'curve'), ('g', 'curve'), ('r', 'curve'), ('sigma', 'scalar'), ('u1', 'curve'), ('sigma1', 'scalar')):
+        ip.declare(s_, k)
+    tmpl = ip.construct(cls, [], {'apply_hard_core': Const(flag)})
+    o = ip.lib.deepcopy(ip, [tmpl], {}, None)
+    o.origin = 'self'
+    tmpl.attrs['sigma'] = Num(N.sym('sigma1'))
+    tmpl.attrs['potential'] = Arr(N.sym('u1'), 'template.potential', ip)
+    tmpl.attrs['apply_hard_core'] = Const(not flag)
+    o.attrs['potential'] = Arr(U, 'self.potential', ip)
+    o.attrs['sigma'] = Num(S)
+    garr = Arr(G, 'gamma', ip)
+    res = ip.call(ip.find_method(o, 'calculate'), [Arr(R, 'r', ip), garr], {})
+    return ip, {'res': res, 'obj': o, 'res1': None, 't1': None, 'garr': garr, 'feedback': False}
+
+
 def rule_history(ctx, rule='R09.h', aliasing=True):
     """The value returned by calculate depends only on the arguments and the *current* potential/sigma, never on an
     earlier evaluation (a cached exponential, a remembered mask ...).  Two-step induction: evaluate the object on
@@ -598,6 +619,7 @@ def rule_history(ctx, rule='R09.h', aliasing=True):
             try:
                 fresh = run_closure(ctx.prog, dcls, flag)
                 worlds = explore(lambda preset: run_twice(ctx.prog, dcls, flag, preset))
+                worlds += explore(lambda preset: run_copy(ctx.prog, dcls, flag, preset))
                 if aliasing:
                     worlds += explore(lambda preset: run_twice(ctx.prog, dcls, flag, preset, feedback=True))
             except (Unsupported, Raised) as e:
@@ -746,6 +768,25 @@ def rule_purity(ctx, rule='R09.p'):
     ctx.floor(rule, n, 8, 'closure purity obligations')
 
 
+def _package_name(prog, init, name):
+    """the class a name of the package init denotes (last binding wins): `from .X import name`, or `name = <class>`"""
+    found = None
+    for st in init.tree.body:
+        if isinstance(st, ast.ImportFrom):
+            for a in st.names:
+                if (a.asname or a.name) == name:
+                    found = prog.resolve_name_in_module(init, ast.Name(id=name))
+        elif isinstance(st, ast.Assign):
+            for t in st.targets:
+                if isinstance(t, ast.Name) and t.id == name:
+                    v = st.value
+                    if isinstance(v, ast.Name) and v.id != name:
+                        found = _package_name(prog, init, v.id) or prog.resolve_name_in_module(init, v)
+                    else:
+                        found = prog.resolve_name_in_module(init, v) if isinstance(v, (ast.Name, ast.Attribute)) else None
+    return found if hasattr(found, 'mro') else None
+
+
 def rule_aliases(ctx, rule='R09.a'):
     """PY, HNC, MSA, MS: subclasses without members, exported from the module of their parent"""
     prog = ctx.prog
@@ -768,17 +809,19 @@ def rule_aliases(ctx, rule='R09.a'):
                               'alias class defines its own members %s and no longer behaves identically to %s'
                               % (members, dcls.name), c.module.relpath + ':%d' % c.node.lineno)
                 continue
-            imp = init.imports.get(c.name)
-            if imp is None:
+            # what the package-level name denotes: an import or a plain binding `PY = PercusYevick` in the package init
+            target = _package_name(prog, init, c.name)
+            if target is None:
                 ctx.violation(rule, c.qualname, 'alias-export', 'alias %s is not exported by pyPRISM.closure' % c.name,
                               init.relpath)
                 continue
-            if not (imp[0] == 'from' and imp[1] == c.module.name and imp[2] == c.name):
+            # identical behaviour: the alias class itself, or the closure it abbreviates (a member-free subclass adds nothing)
+            if target is not c and target is not dcls:
                 ctx.violation(rule, c.qualname, 'alias-export',
-                              'pyPRISM.closure.%s is bound to %s, not to the alias of %s' % (c.name, imp, dcls.name),
-                              init.relpath)
+                              'pyPRISM.closure.%s is bound to %s, not to %s or its alias class' % (
+                                  c.name, getattr(target, 'qualname', target), dcls.name), init.relpath)
                 continue
-            ctx.holds(rule, c.qualname, 'member-free subclass of %s, exported as pyPRISM.closure.%s' % (dcls.name, c.name),
+            ctx.holds(rule, c.qualname, 'member-free subclass of %s; pyPRISM.closure.%s denotes %s' % (dcls.name, c.name, target.name),
                       c.module.relpath + ':%d' % c.node.lineno)
     # every exported name that is a closure class resolves
     for name, imp in sorted(init.imports.items()):
